@@ -33,7 +33,7 @@ def _tables(ctx):
     return rows, ed
 
 
-def run(ctx):
+def _run(ctx):
     lam = sp.Symbol("lam", positive=True)
     rho = sp.Symbol("rho", positive=True)
     w = neutron_world(ctx, energy_dependent=("H1",))
@@ -291,3 +291,14 @@ def _r4(ctx, R="R4"):
     ctx.check(not bad, R, "every energy-dependent table is strictly increasing in energy",
               f"not increasing: {bad}", "periodictable/nsf_tables.py", sample={"tables": len(ed)})
     ctx.floor(R, 20)
+
+
+def run(ctx):
+    from spec.neutron import ConditionalResult
+    try:
+        _run(ctx)
+    except ConditionalResult as cr:
+        # a result whose *shape* depends on the data (None for some values of the data, numbers otherwise) wherever it turns up
+        ctx.fail("R2", "neutron results have the same shape for every atom with neutron data",
+                 f"the shape of a result depends on the data: {str(cr)[:300]} (an atom with b_c = 0, such as natural Sm, is not 'missing')",
+                 fsite(ctx, "nsf.neutron_scattering"))
